@@ -65,7 +65,13 @@ func VerifH01b() {
 		pw = pw[:1+vChoose(len(pw)-1)]
 		cont = nil
 	}
-	input := vCat(vStartup(vKV([]byte("user"), user, []byte("database"), db)), pw, cont)
+	// surplus bytes inside the startup packet, after the parameter terminator:
+	// they belong to that packet and must never be taken for a password
+	surplus := nondetBytes(vChoose(vParam("SURPLUS", 3)))
+	input := vCat(vStartup(vCat(vKV([]byte("user"), user, []byte("database"), db), surplus)), pw, cont)
+	if len(surplus) > 0 && blen == 0 && lenMode == 0 && cut == 0 {
+		vReach("bodyless-password-after-startup-surplus")
+	}
 
 	validatorCalls := 0
 	var seenDB, seenUser, seenPw []byte
@@ -159,6 +165,18 @@ func VerifH01b() {
 func VerifH12a() {
 	N := vParam("N", 6)
 	area := nondetBytes(vChoose(N + 1))
+	// WELLKNOWN=1: the area starts with one pair whose key is a name that means
+	// something to the server or to clients (too long for the arbitrary bytes to
+	// spell) and whose value is symbolic
+	if vParam("WELLKNOWN", 0) > 0 {
+		keys := []string{"user", "database", "client_encoding", "server_encoding", "application_name",
+			"is_superuser", "session_authorization", "server_version", "options"}
+		key := keys[vChoose(len(keys))]
+		val := nondetBytes(vChoose(3))
+		vAssume(vNoNUL(val))
+		area = vCat(vCStr([]byte(key)), vCStr(val), area)
+		vReach("well-known-key")
+	}
 	// reference parse of the parameter area
 	type kv struct{ k, v []byte }
 	var pairs []kv
